@@ -47,8 +47,16 @@ fn body_instr(f: &mut we::Function, t: &Value) {
     };
 }
 
+fn custom(m: &mut we::Module, list: &Value) {
+    for c in arr(list) {
+        let bytes: Vec<u8> = arr(&c[1]).iter().map(|x| u(x) as u8).collect();
+        m.section(&we::CustomSection { name: c[0].as_str().unwrap().into(), data: bytes.into() });
+    }
+}
+
 pub fn base_module(b: &Value) -> Vec<u8> {
     let mut m = we::Module::new();
+    custom(&mut m, &b["customs"]["early"]);
     let mut types = we::TypeSection::new();
     types.ty().function([], [we::ValType::I32]); // type 0: () -> i32   (every function of the base)
     m.section(&types);
@@ -139,6 +147,7 @@ pub fn base_module(b: &Value) -> Vec<u8> {
         }
         m.section(&ds);
     }
+    custom(&mut m, &b["customs"]["mid"]);
     if !b["names"].is_null() {
         let n = &b["names"];
         let mut ns = we::NameSection::new();
@@ -157,6 +166,7 @@ pub fn base_module(b: &Value) -> Vec<u8> {
         ns.globals(&gm);
         m.section(&ns);
     }
+    custom(&mut m, &b["customs"]["late"]);
     m.finish()
 }
 
@@ -263,6 +273,22 @@ pub fn apply_history(module: &mut Module<'static>, hist: &[Value]) -> Vec<u32> {
                 // (returns false and changes nothing when the function already is an import)
                 module.convert_local_fn_to_import(FunctionID(resolve(&step["id"], &results)), "env".to_string(), step["name"].as_str().unwrap().to_string(), ty) as u32
             }
+            "custom_add" => {
+                let name: &'static str = Box::leak(step["name"].as_str().unwrap().to_string().into_boxed_str());
+                let bytes: Vec<u8> = arr(&step["bytes"]).iter().map(|x| u(x) as u8).collect();
+                *module.custom_sections.add(wirm::ir::types::CustomSection::new(name, bytes))
+            }
+            "custom_delete" => {
+                let id = module.custom_sections.get_id(step["name"].as_str().unwrap().to_string()).expect("custom section to delete");
+                module.custom_sections.delete(id);
+                0
+            }
+            "custom_modify" => {
+                let id = module.custom_sections.get_id(step["name"].as_str().unwrap().to_string()).expect("custom section to modify");
+                let bytes: Vec<u8> = arr(&step["bytes"]).iter().map(|x| u(x) as u8).collect();
+                *module.custom_sections.get_section_data_mut(id).expect("custom section data") = bytes;
+                0
+            }
             "set_fn_name" => { module.set_fn_name(FunctionID(resolve(&step["id"], &results)), step["name"].as_str().unwrap().to_string()); 0 }
             "delete_func" => { module.delete_func(FunctionID(resolve(&step["id"], &results))); 0 }
             "add_import_memory" => match tag_of(step) {
@@ -343,6 +369,7 @@ pub fn decode_module(bytes: &[u8]) -> Value {
     let mut fn_types = vec![];
     let (mut nfuncs, mut nglobals, mut nlocals) = (vec![], vec![], vec![]);
     let mut types: Vec<Value> = vec![];
+    let mut customs: Vec<Value> = vec![];
     for payload in wasmparser::Parser::new(0).parse_all(bytes) {
         use wasmparser::Payload as P;
         match payload.unwrap() {
@@ -408,6 +435,7 @@ pub fn decode_module(bytes: &[u8]) -> Value {
                 }
             },
             P::CustomSection(c) => {
+                if c.name() != "name" { customs.push(json!([c.name(), c.data()])); }
                 if let wasmparser::KnownCustom::Name(r) = c.as_known() {
                     for sub in r {
                         match sub.unwrap() {
@@ -427,7 +455,7 @@ pub fn decode_module(bytes: &[u8]) -> Value {
             _ => {}
         }
     }
-    json!({"types": types, "names": {"funcs": nfuncs, "globals": nglobals, "locals": nlocals}, "imports": imports, "globals": globals, "funcs": funcs, "memories": mems, "tables": tables, "exports": exports, "start": start, "elems": elems, "data": data})
+    json!({"customs": customs, "types": types, "names": {"funcs": nfuncs, "globals": nglobals, "locals": nlocals}, "imports": imports, "globals": globals, "funcs": funcs, "memories": mems, "tables": tables, "exports": exports, "start": start, "elems": elems, "data": data})
 }
 
 fn init_toks(e: &InitExpr) -> Value {
@@ -456,7 +484,10 @@ pub fn side_effects_json(module: &mut Module<'static>) -> Value {
             recs.push(match inj {
                 Injection::Import { module, name, type_ref, tag } => json!({"v": "import", "module": module, "name": name, "kind": match type_ref { wasmparser::TypeRef::Func(_) => "func", wasmparser::TypeRef::Global(_) => "global", wasmparser::TypeRef::Memory(_) => "memory", _ => "other" }, "tag": tag.data()}),
                 Injection::Export { name, kind, index, tag } => json!({"v": "export", "name": name, "kind": format!("{:?}", kind).to_lowercase(), "index": index, "tag": tag.data()}),
-                Injection::Type { tag, .. } => json!({"v": "type", "tag": tag.data()}),
+                Injection::Type { ty, tag } => match ty {
+                    wirm::ir::module::module_types::Types::FuncType { params, results, .. } => json!({"v": "type", "params": dts(params), "results": dts(results), "tag": tag.data()}),
+                    _ => json!({"v": "type", "tag": tag.data()}),
+                },
                 Injection::Memory { id, initial, maximum, tag } => json!({"v": "memory", "id": id, "min": initial, "max": maximum, "tag": tag.data()}),
                 Injection::PassiveData { data, tag } => json!({"v": "passive_data", "bytes": data, "tag": tag.data()}),
                 Injection::ActiveData { memory_index, offset_expr, data, tag } => json!({"v": "active_data", "mem": memory_index, "offset": init_toks(offset_expr), "bytes": data, "tag": tag.data()}),
